@@ -27,8 +27,10 @@ def gen_cell(rng, t):
         return None
     if t == 'datetime_tz':
         off = rng.choice(OFFSETS)
+        # zone abbreviations are not unique: 'CST' is -06:00 in Chicago and +08:00 in Shanghai, 'IST' +05:30 / +02:00 / +01:00
+        tz = datetime.timezone(datetime.timedelta(seconds=off), rng.choice(['CST', 'IST', 'BST'])) if rng.random() < 0.4 else datetime.timezone(datetime.timedelta(seconds=off))
         return datetime.datetime(rng.choice([1970, 1999, 2024, 476, 999, 1]), rng.randrange(1, 13), rng.randrange(1, 29), rng.randrange(24), rng.randrange(60), rng.randrange(60),
-                                 tzinfo=datetime.timezone(datetime.timedelta(seconds=off)))
+                                 tzinfo=tz)
     if t == 'datetime' and rng.random() < 0.3:
         return datetime.datetime(rng.choice([1, 476, 999, 1000]), rng.randrange(1, 13), rng.randrange(1, 29), rng.randrange(24), rng.randrange(60), rng.randrange(60))
     if t == 'date' and rng.random() < 0.3:
@@ -210,7 +212,7 @@ class C07(Prop):
                    'same-object configuration uses re-iterable sources and stateless steps, so only the checkpoint machinery carries state between runs']
     REAL_VS_STUB = {'real': ['dataflows Flow / checkpoint / stream / unstream / extended_json', 'the file system'], 'stub': ['process environment: TZ set per run; fork per RUN in the fresh configuration']}
     PROBES = ['negative-utc-offset', 'sub-hour-offset', 'duration-value', 'time-value', 'nested-object', 'high-precision-decimal', 'tz-changed-between-runs', 'same-object-config',
-              'fresh-config', 'delete-middle-checkpoint', 'resume-after-delete-all', 'three-checkpoints', 'empty-resource', 'mutating-step-after-checkpoint', 'year-below-1000', 'zero-column-rows', 'sources-through-load', 'same-object-rerun-of-load', 'validate-step-in-the-chain']
+              'fresh-config', 'delete-middle-checkpoint', 'resume-after-delete-all', 'three-checkpoints', 'empty-resource', 'mutating-step-after-checkpoint', 'year-below-1000', 'zero-column-rows', 'sources-through-load', 'same-object-rerun-of-load', 'validate-step-in-the-chain', 'nested-checkpoint-names', 'same-zone-name-different-offsets']
     TIERS = {'quick': dict(runs=500, wall=100, run_wall=300),
              'thorough': dict(runs=12000, wall=1700, run_wall=600)}
     SHRINK_FROZEN = ('fields',)
@@ -238,6 +240,13 @@ class C07(Prop):
         if rng.random() < 0.6:
             links.append(rng.choice(['tail', 'mtail']) if all(t['fields'] for t in tabs) else 'tail')
         names = ['abc'[i] for i in range(ncp)]
+        if ncp >= 2 and rng.random() < 0.15:
+            # checkpoint names that nest: 'a/x' lives in a sub-directory of checkpoint 'a'
+            nested = {'a': 'a', 'b': 'a/x', 'c': 'c'}
+            if rng.random() < 0.5:
+                nested = {'a': 'a/x', 'b': 'a', 'c': 'c'}
+            links = ['cp:' + nested[ln[3:]] if ln.startswith('cp:') else ln for ln in links]
+            names = [nested[n] for n in names]
         ops = [{'op': 'run'}]
         for _ in range(rng.choice([2, 3, 4, 6])):
             r = rng.random()
@@ -272,6 +281,16 @@ class C07(Prop):
         total = [len(t['rows']) for t in spec['tables']]
         self._probes(sc, ctx)
         ops = sc['ops']
+        if any('/' in ln for ln in spec['links']):
+            ctx.probe('nested-checkpoint-names')
+        zn = {}
+        for t in spec['tables']:
+            for row in t['rows']:
+                for c in row:
+                    if isinstance(c, dict) and c.get('tzname') and c.get('off') is not None:
+                        zn.setdefault(c['tzname'], set()).add(c['off'])
+        if any(len(v) > 1 for v in zn.values()):
+            ctx.probe('same-zone-name-different-offsets')
         if any(ln.startswith('v') for ln in spec['links']):
             ctx.probe('validate-step-in-the-chain')
         if spec.get('src') == 'load':
